@@ -68,10 +68,17 @@ def run_binarize(gram, cfg):
     return grammar.binarize(gram, **args)
 
 
+_FAILED = [0]
+
+
 def failed_binarize():
     """A failed call is part of the history: a grammar with a malformed linearization is rejected somewhere inside
     binarization (under both reorderings, with and without markovization); nothing of it may show in the next call."""
-    bad_gram = {('S', 'A', 'B', 'C'): {(((0, 0), (2,), (1, 0)),): {('S1', 'ROOT1'): 1}}}
+    # (the malformed element in every position, so that the call is abandoned at different depths - rotating)
+    _FAILED[0] += 1
+    lin = [(((0, 0), (2,), (1, 0)),), (((0, 0), (1, 0), (2,)),), (((2,), (0, 0), (1, 0)),),
+           (((0, 0), (1, 0)), ((0, 1), (2,))), (((1, 0), (0, 0), (1, 1)), ((2,),))][_FAILED[0] % 5]
+    bad_gram = {('S', 'A', 'B', 'C'): {lin: {('S%d' % len(lin), 'ROOT1'): 1}}}
     for kw in ({'reordering': grammar.reordering_optimal}, {'reordering': grammar.reordering_none},
                {'reordering': grammar.reordering_optimal, 'markov_opts': {'v': 1, 'h': 1}}):
         try:
